@@ -32,8 +32,11 @@ func (c *HTTPResponder) AddHeader(name string, value string) {
 
 func (c *HTTPResponder) SetHeaders(headers http.Header) {
 	for key, values := range headers {
+		// Replace whatever was set for this field, then keep every value in order
+		// (Set per value would leave only the last one, e.g. of several Set-Cookie lines).
+		c.GetHeaders().Del(key)
 		for _, value := range values {
-			c.SetHeader(key, value)
+			c.AddHeader(key, value)
 		}
 	}
 }
